@@ -214,8 +214,9 @@ def run(chk, ctx):
     chk.rule = ('L3: frozen marginals (2-5 pops, random frozen subsets, const and time-varying), isolated marginals of random subsets (shared time steps), '
                 'per-kernel line-mass bookkeeping through recorded kernel calls, injection support/amount, exhaustive frozen x migration-rate rejection table; '
                 'K: full sweeps with flags vs the Lean model. non-trivial = distinct (clause, d, subset/flags, varying)')
-    chk.unproved = ['C04_isolated_marginal (marginal of a subset evolves as the subset alone) is validated numerically (L3) only; proved are the line-level ingredients '
-                    '(non-corner lines conserve mass, decoupling a1 = c_{N-2} = 0, linearity)',
+    chk.unproved = ['isolated marginals: proved are the kernel-sweep theorems for axes inside and outside S (any dimension, abstract index types), the injection identity, the '
+                    'composition over sweeps/steps for any preserved invariant, and the fully instantiated case d=2, S={1}; the multi-index plumbing that instantiates the invariant '
+                    'for every (d, S) with d=3..5 is not done - those cases are covered by the sweep-level theorems plus the numerical L3 check',
                     'round-off: identities are exact in the model, checked at 1e-9..1e-10 on the float implementation',
                     'C04 theorems are stated on the functional form (stepFam/stepAxisFn); that the tabulated arrays equal it on every valid index is proved in Props/C03 (C03_tabulated_*)']
     from . import c03
